@@ -968,6 +968,15 @@ def f_metrics(tier="quick", seed=0):
     specs.append(conv_spec(None, ["W", "Q"], ["W"], ["Q"]))
     specs.append(conv_spec(pq, ["Q1", "S", "Q0"], ["W1", "W0"], ["Q1", "Q0"]))
     specs.append(conv_spec(pq, ["Q1", "W0", "Q0"], ["W1", "W0"], ["Q1", "Q0"]))
+    # a buffer whose depth is a float with many significant digits (its capacity is printed as a float literal)
+    for style in ("lazy", "eager"):
+        lo = ["M", "K", "N"]
+        y = mini_metrics_yaml(lo, "two-finger", style, {}, "A").replace("width: 64\n          depth: 1024", "width: 96\n          depth: 170.666")
+        secs = S.split_sections(y)
+        specs.append({"name": "metrics/mini-floatdepth/%s" % style, "decl": decl, "exprs": exprs,
+                      "mapping": {"loop-order": {"Z": lo}, "spacetime": {"Z": {"space": [], "time": lo}}},
+                      "extents": {"K": 3, "M": 2, "N": 2}, "sizes": {}, "arch": secs["architecture"], "bindings": secs["bindings"],
+                      "format": secs["format"], "tags": {"family": "metrics", "template": "mini-floatdepth", "leader_first": True}})
     # partitioned variant (explicit shapes with interleaved levels)
     for lo in (["M1", "N", "K", "M0"], ["N", "M1", "M0", "K"], ["K", "M1", "N", "M0"]):
         for isect in (None, "two-finger", "leader-follower"):
